@@ -10,3 +10,4 @@ pub mod conn;
 pub mod connrun;
 pub mod byterun;
 pub mod c12;
+pub mod c19;
